@@ -1629,7 +1629,7 @@ impl Relation {
             } else {
                 self.0.children_with_tokens().count()
             };
-            let new_root = SyntaxNode::new_root(self.0.green().splice_children(
+            let new_root = SyntaxNode::new_root_mut(self.0.green().splice_children(
                 idx..idx,
                 vec![
                     GreenToken::new(WHITESPACE.into(), " ").into(),
@@ -1691,7 +1691,7 @@ impl Relation {
             );
         } else {
             let idx = self.0.children_with_tokens().count();
-            let new_root = SyntaxNode::new_root(self.0.green().splice_children(
+            let new_root = SyntaxNode::new_root_mut(self.0.green().splice_children(
                 idx..idx,
                 vec![
                     GreenToken::new(WHITESPACE.into(), " ").into(),
